@@ -1,5 +1,7 @@
 import GeffModel.Proto
 import GeffModel.ValidateData
+import GeffModel.Lineage
+import GeffModel.Tracklet
 open Lean Geff Geff.Proto Geff.Validate
 
 def pairsJson (l : List (Int × Int)) : Json :=
@@ -60,6 +62,26 @@ def handle (j : Json) : Except String Json := do
       | .error e => throw e
     let shape ← (← (← j.getObjVal? "shape").getArr?).toList.mapM fun s => s.getNat?
     return outcomeJson (ellipsoidShapeStage axes shape)
+  | "ellipsoid" =>
+    let axes ← match j.getObjVal? "axes" with
+      | .ok Json.null => pure none
+      | .ok a => do pure (some (← (← a.getArr?).toList.mapM fun s => s.getStr?))
+      | .error e => throw e
+    let shape ← (← (← j.getObjVal? "shape").getArr?).toList.mapM fun s => s.getNat?
+    let sym ← getBoolList (← j.getObjVal? "sym")
+    let pd ← getBoolList (← j.getObjVal? "pd")
+    return outcomeJson (validateEllipsoid axes shape sym pd (← getMissing j))
+  | "lineage_masked" =>
+    -- validate_data(lineage=True): `_nodes_with_id` then `validate_lineages` (int64 cast first)
+    let nodes ← getIntList (← j.getObjVal? "nodes")
+    let labels ← getIntList (← j.getObjVal? "labels")
+    let edges ← getIntPairs (← j.getObjVal? "edges")
+    match Tracklet.nodesWithId (nodes.map Tracklet.toInt64) (labels.map Tracklet.toInt64) (← getMissing j) with
+    | none => return Json.mkObj [("o", "IndexError")]
+    | some nl =>
+      let es := edges.map fun e => (Tracklet.toInt64 e.1, Tracklet.toInt64 e.2)
+      return Json.mkObj [("valid", Json.bool (Lineage.validateLineages nl es)),
+                         ("bad", Json.arr ((Lineage.lineageErrors nl es).map intJson).toArray)]
   | "dispatch" =>
     let cfg ← getBoolList (← j.getObjVal? "config")   -- graph, sphere, ellipsoid, lineage, tracklet
     let dec ← getBoolList (← j.getObjVal? "decl")     -- sphere, ellipsoid, trackProps set, "tracklet" key, "lineage" key
